@@ -32,7 +32,7 @@ def gen_kind(rng, idx: int) -> dict:
 def kind_conf(k: dict, api: bool = True, static: list[str] | None = None) -> dict:
     fams = [(1, 1), (2, 1), (1, 4), (1, 128)]
     n = {
-        'peer_ip': k['peer_ip'], 'local_ip': LOCAL, 'local_as': k['local_as'], 'peer_as': k['peer_as'], 'router_id': LOCAL, 'hold': 180,
+        'peer_ip': k['peer_ip'], 'local_ip': k.get('local_ip', LOCAL), 'local_as': k['local_as'], 'peer_as': k['peer_as'], 'router_id': LOCAL, 'hold': 180,
         'families': fams, 'adj-rib-out': False, 'group-updates': k.get('group_updates', True),
         'caps': {'asn4': True, 'extended-message': k['extmsg'], 'add-path': k.get('ap_local', 'send/receive' if k['addpath'] else 'disable'), 'route-refresh': True,
                  'nexthop': bool(k.get('nexthop_ext')), 'graceful-restart': 'disable', 'multi-session': False, 'operational': False, 'aigp': True},
@@ -236,7 +236,7 @@ def expected_routes(r: dict, k: dict) -> list[tuple[tuple, dict]]:
     if 'generic' in a:
         code, flags, hx = a['generic']
         exp['unknown'] = [(flags & 0xE0, code, hx.lower())]
-    nh = LOCAL if r['nh'] == 'self' else r['nh']
+    nh = k.get('local_ip', LOCAL) if r['nh'] == 'self' else r['nh']
     out = []
     for p in prefixes:
         pid = None
